@@ -187,6 +187,47 @@ macro_rules! ensure {
     };
 }
 
+/// The `std::iter::Iterator` view of a fallible iterator yields what its inherent `next` yields: `Some(Ok(x))` for
+/// every item, `Some(Err(e))` for an error, `None` at the end. `$make` builds a fresh iterator (evaluated twice),
+/// `$show` renders an item.
+#[macro_export]
+macro_rules! std_iter_agrees {
+    ($make:expr, $show:expr, $sig:expr) => {{
+        let mut a = $make;
+        let mut b = $make;
+        let mut n = 0usize;
+        loop {
+            let x = a.next();
+            let y = ::std::iter::Iterator::next(&mut b);
+            match (x, y) {
+                (Ok(Some(p)), Some(Ok(q))) => {
+                    let (sp, sq): (String, String) = ($show(&p), $show(&q));
+                    if sp != sq {
+                        return Err($crate::core::Failure { sig: ($sig).to_string(), detail: format!("item #{}: inherent next gives {} but Iterator::next gives {}", n, sp, sq) });
+                    }
+                }
+                (Ok(None), None) => break,
+                (Err(e1), Some(Err(e2))) => {
+                    if format!("{:?}", e1) != format!("{:?}", e2) {
+                        return Err($crate::core::Failure { sig: ($sig).to_string(), detail: format!("item #{}: inherent next fails with {:?} but Iterator::next with {:?}", n, e1, e2) });
+                    }
+                    break;
+                }
+                (x, y) => {
+                    return Err($crate::core::Failure {
+                        sig: ($sig).to_string(),
+                        detail: format!("item #{}: inherent next {} but Iterator::next {}", n, match x { Ok(Some(_)) => "yields an item".to_string(), Ok(None) => "is at the end".to_string(), Err(e) => format!("fails with {:?}", e) }, match y { Some(Ok(_)) => "yields an item".to_string(), None => "is at the end".to_string(), Some(Err(e)) => format!("fails with {:?}", e) }),
+                    });
+                }
+            }
+            n += 1;
+            if n > 20_000 {
+                break;
+            }
+        }
+    }};
+}
+
 #[macro_export]
 macro_rules! ensure_eq {
     ($a:expr, $b:expr, $sig:expr) => {{
